@@ -15,7 +15,8 @@ class C09(Spec):
             "collection) whose entries mix legitimate ones with every kind of impostor - activity by another actor, by an actor on "
             "another host with the same path, embedded actor object lying about its id, activity without actor, reply to another post, "
             "reply without inReplyTo, reply whose parent only redirects to this post, foreign-host author, author without id, entries "
-            "that 404 / are not JSON / are of the wrong type - each embedded, referenced by URL or reduced to a stub. The verdict "
+            "that 404 / are not JSON / are of the wrong type - each embedded, referenced by URL or reduced to a stub; owners (actor, opened post) that have NO id "
+            "themselves (nothing belongs to them); replies collections served by another host, with and without an id of their own. The verdict "
             "(genuine item / error item) of every position of Children().Harvest is compared with the generator's ground truth and "
             "with Listing.timeline_entry / reply_entry; the number and order of delivered entries must match the page. "
             "non-trivial = the page mixes genuine entries with impostors.")
@@ -107,7 +108,13 @@ class C09(Spec):
         coll["orderedItems" if coll["type"].startswith("Ordered") else "items"] = entries
         w.register_strings(coll)
         w.serve(outbox, netgen.ok_json(stamp(coll, w.host(ha))))
-        w.serve(owner, netgen.ok_json(stamp({"type": "Person", "id": owner, "name": "Alice", "preferredUsername": "alice", "outbox": outbox}, w.host(ha))))
+        owner_doc = {"type": "Person", "id": owner, "name": "Alice", "preferredUsername": "alice", "outbox": outbox}
+        if rng.random() < 0.12:
+            # an actor that does not say who it is has no timeline of its own: nothing can be "performed by" it, whatever the entries
+            # (an entry without a performer included) say
+            del owner_doc["id"]
+            truth = [False] * len(truth)
+        w.serve(owner, netgen.ok_json(stamp(owner_doc, w.host(ha))))
         w.u(owner)
         w.ops.append(("listing", 2, w.u(owner), n + 2))
         w.meta["truth"] = truth
@@ -194,6 +201,11 @@ class C09(Spec):
         w.serve(replies, netgen.ok_json(stamp(coll, w.host(coll_host))))
         key = rng.choice(["replies", "comments"])
         op = {"type": "Note", "id": me, "content": "original post", "attributedTo": alice, key: replies}
+        if coll_host == ha and rng.random() < 0.12:
+            # a post that does not say who it is cannot be replied to: every entry (one without inReplyTo included) is an error item
+            del op["id"]
+            del op["attributedTo"]
+            truth = [False] * len(truth)
         w.register_strings(op)
         w.serve(me, netgen.ok_json(stamp(op, w.host(ha))))
         w.ops.append(("listing", 3, w.u(me), n + 2))
